@@ -101,4 +101,31 @@ theorem compressing_store_breaks_both_clauses :
     storeCompressed isEmptyList 4 (reloadCompressed isEmptyList 4 expEmpty) ≠ storeCompressed isEmptyList 4 expEmpty := by
   decide
 
+/-! ### why the store of a new iteration must not depend on how the experiment object was obtained
+
+`instantiate_dowhile_next_iteration(…, store_flowir_to_disk=True)` stores unconditionally (`Instance.step`).  A variant
+that stores only when the configuration object may update the instance files (`Instance.stepGated`) loses the iterations
+of a restarted experiment (`elaunch --restart` loads with `updateInstanceConfiguration=False` and keeps looping): the
+object in memory has the components of the new iteration, the next load of the directory does not.
+History: create (component 1), iterate (component 5), restart, iterate (component 6), load. -/
+
+def iter1 : Step := .iterate [{ stage := 0, name := 5, isDoc := false, opts := [], vars := [], ovr := [] }]
+def iter2 : Step := .iterate [{ stage := 0, name := 6, isDoc := false, opts := [], vars := [], ovr := [] }]
+def restartHistory : List Step := [iter1, .load 0 false, iter2, .load 0 false]
+
+/-- the code that exists: the second load sees all three components (instance of `session_components`) -/
+theorem restart_keeps_iterations :
+    compIds (runSteps 4 (Session.create 4 ⟨doc, 0, []⟩) restartHistory).exp.doc
+      = [(0, 1, false), (0, 5, false), (0, 6, false)] := by decide
+
+/-- the gated variant: the restarted object holds component 6 after its iteration, the directory it maintains does
+not, and the next load yields an experiment without it -/
+theorem gated_store_loses_iterations_of_a_restart :
+    compIds ((restartHistory.take 3).foldl (stepGated 4) (Session.create 4 ⟨doc, 0, []⟩)).exp.doc
+      = [(0, 1, false), (0, 5, false), (0, 6, false)] ∧
+    compIds ((restartHistory.take 3).foldl (stepGated 4) (Session.create 4 ⟨doc, 0, []⟩)).disk
+      = [(0, 1, false), (0, 5, false)] ∧
+    compIds (restartHistory.foldl (stepGated 4) (Session.create 4 ⟨doc, 0, []⟩)).exp.doc
+      = [(0, 1, false), (0, 5, false)] := by decide
+
 end St4sd.C07.Witness
